@@ -68,6 +68,8 @@ pub fn new_app() -> App {
             let mut coins: Vec<Coin> = DENOMS.iter().map(|d| coin(RICH, *d)).collect();
             coins.push(coin(RICH, FACTORY_DENOM));
             coins.push(coin(RICH, LOOKALIKE_DENOM));
+            // the ordinary denoms in upper case: different bank denoms that merely look alike
+            for d in DENOMS.iter() { coins.push(coin(RICH, d.to_uppercase())); }
             coins.sort_by(|a, b| a.denom.cmp(&b.denom));
             router.bank.init_balance(storage, &Addr::unchecked(a), coins).unwrap();
         }
